@@ -839,6 +839,15 @@ impl<'a> RepositoryUpdate<'a> {
         ) {
             Ok(Some(notify)) => notify,
             Ok(None) => {
+                if current.is_none() {
+                    // A Not Modified response to an unconditional request:
+                    // there is no local copy that could be unmodified, so
+                    // this cannot count as a successful update.
+                    self.log.warn(format_args!(
+                        "Not modified response without a local copy."
+                    ));
+                    return Ok(false)
+                }
                 self.not_modified(current)?;
                 return Ok(true)
             }
